@@ -55,6 +55,8 @@ var (
 	// undefined weak references every gcc/crt-built shared object carries
 	// (crtbegin's deregister_tm_clones/register_tm_clones/__do_global_dtors_aux, crti's _init)
 	c10crtWeak = map[string]bool{"__cxa_finalize": true, "__gmon_start__": true, "_ITM_deregisterTMCloneTable": true, "_ITM_registerTMCloneTable": true}
+	// zero-sized NOTYPE boundary markers older linkers put into .dynsym
+	c10linkerMarks = map[string]bool{"_edata": true, "__bss_start": true, "_end": true}
 	// functions the crt may export from any shared object
 	c10crtFuncs = map[string]bool{"_init": true, "_fini": true}
 )
@@ -83,8 +85,8 @@ type c10env struct {
 	pkgs   []string            // std packages + "base"
 	deps   map[string][]string // pkg -> transitive deps in load order (base first)
 	api    map[string]*c10pkgAPI
-	ctlNon int64 // control object's writable non-RELRO bytes
-	ctlMap int64 // control object's bytes on pages the kernel maps writable
+	ctlNon int64                      // control object's writable non-RELRO bytes
+	ctlMap int64                      // control object's bytes on pages the kernel maps writable
 	defs   map[string]map[string]bool // pkg -> names it defines (dynamic symbol table, at run time)
 }
 
@@ -508,6 +510,9 @@ func (env *c10env) judge(e *cenv, ins *c10inspect, exemptE bool) {
 		case "tls":
 			e.viol("thread-local-data:"+pkg, fmt.Sprintf("loaded libwuffs_%s.so exports the thread-local symbol %s", pkg, s.Name), map[string]interface{}{"package": pkg, "symbol": s})
 		default: // object, common, notype
+			if s.Type == "notype" && s.Size == 0 && c10linkerMarks[s.Name] {
+				continue // segment boundary markers some linkers export; not data
+			}
 			no++
 			if s.Writable || s.Maps == "w" {
 				wobjs = append(wobjs, s.Name)
@@ -824,7 +829,7 @@ func c10pureLeg(e *cenv) {
 	r := e.r
 	n := 1000
 	if r.Thorough() {
-		n = 30000
+		n = 20000
 	}
 	jobs, err := histJobs(r, "c10", n, r.Scratch+"/c10h")
 	if err != nil {
